@@ -57,7 +57,7 @@ def _run(ctx):
         kinds[c["e"]] = kinds.get(c["e"], 0) + 1
     ctx.notes.append("Gen_Cmdline: %d cases %s (all command lines of the bounded alphabet, all argument lists of <= 3 tokens x "
                      "start x handler decision patterns), 50 calls per execution" % (len(cases), kinds))
-    ctx.sample({"kind": "model case executed on the real function", "call": next(c for c in cases if c["e"] == "Parse" and len(c["args"]) == 3)})
+    ctx.sample({"kind": "model case executed on the real function", "call": next(c for c in cases if c["e"] == "Parse" and c["args"][:2] == [[45, 97, 98], [98]] and len(c["args"]) == 3 and len(c["dec"]) == 4)})
     sp = ctx.tmp("gen_cases.jsonl")
     ec.write_script(sp, cases)
     ok, lines = validate(ctx, exe, ["script", sp, "@OUT"], ctx.tmp("gen_cases.ndjson"), "%d model cases" % len(cases), count_as="replay")
